@@ -24,9 +24,11 @@ def varint_processor(rep, rule, prog):
             continue
         for st in bb['st']:
             p = st.get('p')
-            if p and any(isinstance(e, dict) and e.get('f') == 'buf' for e in p['p']) and any(isinstance(e, dict) and ('i' in e or 'c' in e) for e in p['p']):
+            # the indexed store into an array field of self (whatever the field is called)
+            if p and p['l'] == 1 and any(isinstance(e, dict) and 'f' in e for e in p['p']) and any(isinstance(e, dict) and ('i' in e or 'c' in e) for e in p['p']):
                 stores.append((bi, st))
     key = rule + '|push stores under i < maxsize'
+    bound_field = None
     if not stores:
         rep.anchor_missing(rule, 'store into self.buf[..] in VarIntProcessor::push')
     for bi, st in stores:
@@ -36,8 +38,11 @@ def varint_processor(rep, rule, prog):
         for op, a, b, sbb, tb in push.comparisons_at(bi):
             if b is None:
                 continue
-            if op == 'Lt' and iexpr is not None and nosite(a) == nosite(iexpr) and show(strip_refs(b)).endswith('.maxsize'):
+            # i < <bound field of self>; that bound field is the one `new` fills from varint_max_size (checked below)
+            bb_ = strip_refs(b)
+            if op == 'Lt' and iexpr is not None and nosite(a) == nosite(iexpr) and bb_[0] == 'field' and strip_refs(bb_[1])[0] == 'arg':
                 ok = True
+                bound_field = bb_[2]
         if ok:
             rep.ok(rule, key, 'buf[i] = b is dominated by i < maxsize', push.loc(st.get('ln')))
         else:
@@ -55,7 +60,7 @@ def varint_processor(rep, rule, prog):
         rep.ok(rule, key, 'buf holds %d bytes' % blen, push.loc())
     else:
         rep.bad(rule, key, push.loc(), 'VarIntProcessor.buf holds %d bytes, a 64-bit varint needs 10' % blen)
-    # (b) writers of the cursor
+    # (b) writers of the cursor and of the bound: any whole-field assignment to a VarIntProcessor outside push
     writers = {}
     for b in prog.bodies.values():
         if b.crate != 'pilota':
@@ -65,18 +70,17 @@ def varint_processor(rep, rule, prog):
                 p = st.get('p')
                 if p and p['p'] and 'VarIntProcessor' in b.locals[p['l']]['ty']:
                     f = [e['f'] for e in p['p'] if isinstance(e, dict) and 'f' in e]
-                    if f and f[-1] in ('i', 'maxsize') and not any(isinstance(e, dict) and ('i' in e or 'c' in e) for e in p['p']):
+                    if f and not any(isinstance(e, dict) and ('i' in e or 'c' in e) for e in p['p']):
                         writers.setdefault(f[-1], []).append((b, st))
     key = rule + '|writers of i'
-    wi = writers.get('i', [])
-    bad = [b.key for b, st in wi if b.id != push.id]
-    incs = [show(push.expr_rvalue(st['r'])) for b, st in wi if b.id == push.id]
-    if bad or writers.get('maxsize'):
-        rep.bad(rule, key, '', 'VarIntProcessor.i / .maxsize are assigned outside push/new (%s): the bound i <= maxsize <= 10 that the index sites rely on no longer follows' % (bad + [b.key for b, _ in writers.get('maxsize', [])]))
-    elif len(incs) == 1 and 'AddWithOverflow 1' in incs[0].replace('(', '').replace(')', '') or (len(incs) == 1 and incs[0].endswith('Add 1')):
-        rep.ok(rule, key, 'only push writes i (i += 1)', push.loc())
+    outside = sorted({'%s.%s' % (b.key, f) for f, lst in writers.items() for b, st in lst if b.id != push.id})
+    inpush = [(f, show(push.expr_rvalue(st['r']))) for f, lst in writers.items() for b, st in lst if b.id == push.id]
+    if outside or any(f == bound_field for f, _ in inpush):
+        rep.bad(rule, key, '', 'fields of VarIntProcessor are assigned outside push/new, or push changes the bound (%s; in push: %s): the invariant i <= bound <= 10 that the index sites rely on no longer follows' % (outside, inpush))
+    elif len(inpush) == 1 and ('AddWithOverflow 1' in inpush[0][1].replace('(', '').replace(')', '') or inpush[0][1].endswith('Add 1')):
+        rep.ok(rule, key, 'only push writes the cursor (%s += 1)' % inpush[0][0], push.loc())
     else:
-        rep.bad(rule, key, push.loc(), 'VarIntProcessor::push updates i by %s, expected a single i += 1' % incs)
+        rep.bad(rule, key, push.loc(), 'VarIntProcessor::push updates %s, expected a single cursor += 1' % inpush)
     # (c) maxsize source and instantiations
     key = rule + '|maxsize source'
     src = None
